@@ -292,8 +292,52 @@ def mf_multi_cases():
     return out
 
 
+# ------------------------------------------------------------------------------------------------
+# parameters the library chooses itself (guess_tempo_parameters / tempo_compute without parameters) must not depend
+# on the basis either: same dt, dkmax, epsrel for (V H V^dag, V A V^dag, V O V^dag) as for (H, A, O)
+
+def guess_case(args):
+    d, syskind, vname = args
+    import warnings
+    v = K.UNITARIES[vname](d)
+    ev = np.linspace(1.0, -1.0, d)
+    h = np.diag(np.linspace(9.0, -4.0, d)).astype(complex)          # fast system: its frequency limits dt
+    h[0, d - 1] = h[d - 1, 0] = 2.5
+    lo = np.diag(np.sqrt(np.arange(1, d)), 1).astype(complex)
+    bad = []
+
+    def guess(vv):
+        bath = oq.Bath(K.conj(vv, np.diag(ev).astype(complex)), K.correlations())
+        if syskind == "H":
+            sysm = oq.System(K.conj(vv, h))
+        elif syskind == "H+L":
+            sysm = oq.System(K.conj(vv, 0.2 * h), gammas=[30.0], lindblad_operators=[K.conj(vv, lo)])
+        else:
+            sysm = oq.TimeDependentSystem(lambda t: K.conj(vv, h) * (1 + 0.3 * np.cos(t)))
+        with warnings.catch_warnings():
+            warnings.simplefilter("ignore")
+            p_ = oq.guess_tempo_parameters(bath, 0.0, 2.0, system=sysm, tolerance=1e-2)
+            q_ = oq.guess_tempo_parameters(bath, 0.0, 2.0, tolerance=1e-2)
+        return (p_.dt, p_.dkmax, p_.epsrel), q_.dt
+    try:
+        ref, bath_dt = guess(np.eye(d, dtype=complex))
+        got, _ = guess(v)
+    except Exception as ex:  # noqa
+        return {"bad": [(f"guess|{syskind}|exception:{K.exc_name(ex)}", str(ex)[:120])], "limited": False}
+    limited = ref[0] < bath_dt * (1 - 1e-9)
+    if abs(got[0] - ref[0]) > 1e-9 * ref[0] or got[1] != ref[1] or abs(got[2] - ref[2]) > 1e-9 * ref[2]:
+        bad.append((f"guess|{syskind}|d{d}|parameters-depend-on-the-basis",
+                    f"d={d} system={syskind} V={vname}: (dt, dkmax, epsrel) = {got} in the rotated basis, {ref} in the eigenbasis"))
+    return {"bad": bad, "limited": bool(limited)}
+
+
 def run(tier, seed):
     rep = Report(LEVEL)
+    gj = [(d, sk, vn) for d in (2, 3, 4) for sk in ("H", "H+L", "H(t)") for vn in K.UNITARY_ORDER if vn != "id"]
+    gres = pmap(guess_case, gj, seed=seed)
+    for j, r in zip(gj, gres):
+        for cls, what in r["bad"]:
+            rep.add(Violation(cls, what, {"part": "guess", "args": list(j)}))
     mmc = mf_multi_cases()
     mmr = pmap(mf_multi_case, mmc, seed=seed)
     mm_max = 0.0
@@ -349,7 +393,8 @@ def run(tier, seed):
     samples = [{"key": r["key"], "dev": r["dev"], "bath_influence": r["infl"], "violation": r["cls"]}
                for r in (flat[0], flat[len(flat) // 2], flat[-1])]
     rep.coverage = {
-        "evaluations": len(bcases) + n_eval + len(mmc),
+        "evaluations": len(bcases) + n_eval + len(mmc) + len(gj),
+        "guessed_parameter_cases": {"cases": len(gj), "system_frequency_limits_dt": sum(1 for r in gres if r["limited"])},
         "mean_field_multi_system_own_bases": {"cases": len(mmc), "max_dev": mm_max,
                                               "rule": "2-3 systems, each in its own generic basis, all orders x memory x unique"},
         "distinct_nontrivial": len(bath_keys) + len(keys),
@@ -395,6 +440,9 @@ def run(tier, seed):
 
 
 def replay(rp):
+    if isinstance(rp, dict) and rp.get("part") == "guess":
+        r = guess_case(tuple(rp["args"]))
+        return {"obs": r["bad"], "violation": r["bad"][0][0] if r["bad"] else None}
     if rp.get("part") == "mfmulti":
         a = rp["args"]
         r = mf_multi_case((a[0], tuple(a[1]), a[2], a[3]))
